@@ -6,6 +6,10 @@
 //	    child process) are sent to the REAL session.refLoop; after every event its fileRef map and the Remove
 //	    calls that reached the storage must equal the RefLoop model's state and output (Go mirror on every
 //	    sequence, the Coq model itself on a sample that always contains every disagreement).
+//	    The REAL version layer (newSession, create/recover, commit incl. failing commits, version/release, close,
+//	    reopen; its loop replaced by a recorder) is driven with random histories; per session, the events it sent
+//	    must equal one by one the events of the version-layer model (Conc/VersionLayer.v) for the same operations
+//	    (Go mirror vlmodel.go on every history; the Coq model on the KVL cases) and must satisfy env_ok.
 //	(P) on the real loop: no table of a referenced, unreleased version is ever removed; once all versions but the
 //	    current one are released, removed = added minus current, each once, and the counters hold exactly the
 //	    current tables.  On the real DB over vstor: pinned iterators/snapshots across N version changes keep
@@ -64,35 +68,49 @@ func main() {
 		}
 		kcases = append(kcases, runPart(a, res, part)...)
 	}
-	res.WriteCases("From GL Require Import Conc.RefLoop Corr.C07Run.", "c07case", "mismatches", spread(kcases, 16), 16)
+	res.WriteCases("From GL Require Import Conc.RefLoop Conc.VersionLayer Corr.C07Run.", "c07case", "mismatches", spread(kcases, 16), 16)
 }
 
-// spread reorders the cases so that the few very long ones land in different shards of WriteCases.
+// spread reorders the cases so that the shards of WriteCases (consecutive runs of equal length) carry about the
+// same amount of text: longest first, each into the lightest shard that still has room.
 func spread(cases []string, shards int) []string {
 	if len(cases) < 2*shards {
 		return cases
 	}
 	per := (len(cases) + shards - 1) / shards
-	var long, short []string
-	for _, c := range cases {
-		if len(c) > 50000 {
-			long = append(long, c)
-		} else {
-			short = append(short, c)
+	idx := make([]int, len(cases))
+	for i := range idx {
+		idx[i] = i
+	}
+	sort.SliceStable(idx, func(a, b int) bool { return len(cases[idx[a]]) > len(cases[idx[b]]) })
+	bins := make([][]int, shards)
+	size := make([]int, shards)
+	// the last shard may be shorter: shards*per >= len(cases)
+	room := func(b int) int {
+		full := per
+		if lo := b * per; lo+per > len(cases) {
+			full = len(cases) - lo
+			if full < 0 {
+				full = 0
+			}
 		}
+		return full - len(bins[b])
+	}
+	for _, i := range idx {
+		best := -1
+		for b := 0; b < shards; b++ {
+			if room(b) > 0 && (best < 0 || size[b] < size[best]) {
+				best = b
+			}
+		}
+		bins[best] = append(bins[best], i)
+		size[best] += len(cases[i])
 	}
 	out := make([]string, 0, len(cases))
-	li, si := 0, 0
-	for len(out) < len(cases) {
-		if len(out)%per == 0 && li < len(long) {
-			out = append(out, long[li])
-			li++
-		} else if si < len(short) {
-			out = append(out, short[si])
-			si++
-		} else {
-			out = append(out, long[li])
-			li++
+	for b := 0; b < shards; b++ {
+		sort.Ints(bins[b])
+		for _, i := range bins[b] {
+			out = append(out, cases[i])
 		}
 	}
 	return out
@@ -422,11 +440,13 @@ func shrinkLoop(c SeqCase) *SeqCase {
 
 // ---------------------------------------------------------------- version layer
 
-// vlPart drives the real version layer and checks that what it sends satisfies env_ok.
+// vlPart drives the real version layer and checks that what it sends satisfies env_ok and equals, event by
+// event, what the model of the version layer (Conc/VersionLayer.v; Go mirror vlmodel.go) sends for the same
+// operations. Every session becomes a KVL case, re-evaluated by the Coq model itself.
 func vlPart(a vlib.Args, res *vlib.Result) []string {
-	n, kcap := 400, 16
+	n, kcap, kbytes := 400, 4000, 3000000
 	if a.Thorough() {
-		n, kcap = 30000, 60
+		n, kcap, kbytes = 30000, 4000, 3000000
 	}
 	root := vlib.NewRNG(a.Seed ^ 0x7e1)
 	jobs := make(chan int)
@@ -438,6 +458,8 @@ func vlPart(a vlib.Args, res *vlib.Result) []string {
 	}
 	var mu sync.Mutex
 	var out []string
+	outBytes := 0
+	texts := make([][]string, n)
 	var wg sync.WaitGroup
 	for w := 0; w < 16; w++ {
 		wg.Add(1)
@@ -447,22 +469,26 @@ func vlPart(a vlib.Args, res *vlib.Result) []string {
 			for i := range jobs {
 				c := cases[i]
 				setInflight(w, replayFile{VL: &c})
-				d, logs, stats := runVLCase(c)
+				d, sessions, stats := runVLCase(c)
 				res.Eval(fmt.Sprintf("vl%d", i), stats["commits"] > 0 && (stats["failed_commits"] > 0 || stats["sessions"] > 1))
 				res.Count("vl_cases", 1)
 				for k, v := range stats {
 					res.Count("vl_"+k, v)
 				}
-				for _, l := range logs {
-					res.Count("vl_events", len(l))
+				for _, s := range sessions {
+					res.Count("vl_events", len(s.Events))
+					res.Count("vl_model_ops", len(s.Ops))
+					if !s.Disc {
+						res.Count("vl_sessions_outside_discipline", 1)
+					}
 				}
 				if d != "" {
 					res.Violate("version layer: "+d, replayFile{VL: shrinkVL(c)})
 				}
 				mu.Lock()
-				for _, l := range logs {
-					if len(out) < kcap && len(l) > 4 && len(l) < 200 {
-						out = append(out, CoqProtoCase(l))
+				for _, s := range sessions {
+					if len(s.Events) > 4 {
+						texts[i] = append(texts[i], CoqVLCase(s))
 					}
 				}
 				mu.Unlock()
@@ -474,7 +500,35 @@ func vlPart(a vlib.Args, res *vlib.Result) []string {
 	}
 	close(jobs)
 	wg.Wait()
-	res.Count("k_protocol_sequences", len(out))
+	for _, ts := range texts { // in case order: the case files do not depend on the scheduling
+		for _, t := range ts {
+			if len(out) < kcap && outBytes+len(t) <= kbytes {
+				out = append(out, t)
+				outBytes += len(t)
+			}
+		}
+	}
+	// directed: a recovered session whose first commit fails AFTER newManifest has switched to the new manifest
+	// (removing the old manifest file fails), continued instead of closed. Outside the discipline (through the DB
+	// Open fails there); the model says the recovered tables are then never counted and the loop panics when one
+	// of them is deleted. The real layer must send exactly what the model sends, and the loop model must panic.
+	probe := VLCase{Seed: a.Seed, Probe: true, Ops: []VLOp{{Kind: "commit", Add: 2}, {Kind: "reopen"},
+		{Kind: "failsw", Add: 1}, {Kind: "commit", Add: 1}, {Kind: "commit", Del: 3}}}
+	if d, sessions, _ := runVLCase(probe); d != "" {
+		res.Violate("version layer (directed, failed-but-switched first commit): "+d, replayFile{VL: &probe})
+	} else if len(sessions) == 2 && !sessions[1].Disc {
+		m := NewModel(256)
+		for _, e := range sessions[1].Events {
+			if _, pk, _ := m.Step(e); pk == PanicNegative {
+				res.Count("vl_probe_failed_switched_loop_negative_ref", 1)
+				break
+			}
+		}
+		out = append(out, CoqVLCase(sessions[1]))
+		res.Count("vl_probe_failed_switched_outside_discipline", 1)
+	}
+	res.Count("k_version_layer_sessions", len(out))
+	res.Count("k_version_layer_bytes", outBytes)
 	return out
 }
 
